@@ -198,9 +198,9 @@ PROPS = {
     "C02": {
         "level": "exploration",
         "technique": "same bounded-exhaustive history enumeration as C01 with the sample-lifetime oracles: every held sample and loan is re-read after every step, loan addresses are compared with all chunks that still have a holder, self-undoing loan probes count free chunks",
-        "legs": [{"ws": "seq", "bin": "h_pubsub", "args": ["--prop", "C02"]}, {"ws": "seq", "bin": "h_reqres", "args": ["--prop", "C02"]}],
+        "legs": [{"ws": "seq", "bin": "h_pubsub", "args": ["--prop", "C02"]}, {"ws": "seq", "bin": "h_reqres", "args": ["--prop", "C02"]}, {"ws": "seq", "bin": "h_alloc", "args": ["--prop", "C02"]}],
         "rule": "see coverage.legs[0].rule",
-        "assumptions": ["as C01 (sequential leg)", "request/response payload lifetime is covered by the h_reqres leg when registered"],
+        "assumptions": ["as C01 (sequential leg)", "request/response payload lifetime: h_reqres leg (fixed-size payloads, static segments) and the request-response family of h_alloc (slice responses out of a dynamically growing server segment, two clients, one of which may vanish)"],
         "design_ref": "DESIGN.md §3.3, §4 C02",
         "level_text": "Over the same histories and configurations as C01: the bytes seen through every held sample, orphan sample and unsent loan are re-read after EVERY step and must never change; every new loan's chunk must not still have a holder in the model (sample, buffer entry, history slot, loan); after every step a self-undoing probe must obtain exactly max_loaned_samples minus outstanding loans; at the end of every history the publisher must again obtain its full number of loans.",
         "level_note": "trusted: seqx engine, the holder model; bounded as C01",
